@@ -518,8 +518,8 @@ def make_units(kind):
 
 DEF_CFG = dict(gas='nasa', surf='nasa', sites=2, build='organize', ids='auto', ads='gas_first', Ea='calc',
                A='calc', li=2, li_names='auto', bep=1, units='ex', T=700., P=1., motz=False,
-               ads_act='get_H_act', out='str')
-COORDS = dict(gas=['nasa', 'nasa9', 'shomate'], surf=['nasa', 'shomate', 'nasa9'], sites=[2, 1],
+               ads_act='get_H_act', out='str', sections='all')
+COORDS = dict(sections=['all', 'no_phases', 'no_species'], gas=['nasa', 'nasa9', 'shomate'], surf=['nasa', 'shomate', 'nasa9'], sites=[2, 1],
               build=['organize', 'direct'], ids=['auto', 'user', 'mix', 'clash'], ads=['gas_first', 'surf_first'],
               Ea=['calc', 'given'], A=['calc', 'given'], li=[2, 0, 1, 3], li_names=['auto', 'user', 'mix'],
               bep=[1, 0, 2], units=['ex', 'default', 'si', 'kmol'], T=[700., 300.], P=[1., 10.],
@@ -1129,11 +1129,23 @@ def _req(cfg):
     return dict(units=cfg['units'], T=cfg['T'], P=cfg['P'], motz=cfg['motz'], ads_act=cfg['ads_act'])
 
 
+def _supplied(m):
+    sec = m.cfg.get('sections', 'all')
+    out = {'phases', 'species', 'reactions'} | ({'interactions'} if m.interactions else set())
+    if sec == 'no_phases':
+        out.discard('phases')
+    if sec == 'no_species':
+        out.discard('species')
+    return out
+
+
 def write_model(m, writer, req, out, ctx, case, part):
     """Run the real writer.  Returns the text (from the returned string or from the file)."""
     from pmutt.io.omkm import write_cti, write_thermo_yaml
     from pmutt.io.ctml_writer import convert
-    kw = dict(phases=m.phases, species=m.species, reactions=m.reactions,
+    sup = _supplied(m)
+    kw = dict(phases=m.phases if 'phases' in sup else None, species=m.species if 'species' in sup else None,
+              reactions=m.reactions,
               lateral_interactions=(m.interactions if m.interactions else None), units=m.units,
               T=req['T'], P=req['P'], use_motz_wise=req['motz'], ads_act_method=req['ads_act'])
     tmp = tempfile.mkdtemp(prefix='c07_')
@@ -1152,11 +1164,12 @@ def write_model(m, writer, req, out, ctx, case, part):
             return text
         # CTI: the bundled ctml_writer is the second well-formedness oracle
         accepted = True
+        complete = {'phases', 'species', 'reactions'} <= sup     # ctml_writer needs the whole mechanism
         if out == 'file':
             path = os.path.join(tmp, 'thermo.cti')
             try:
                 with _quiet():
-                    ret = write_cti(filename=path, write_xml=True, **kw)
+                    ret = write_cti(filename=path, write_xml=complete, **kw)
             except SystemExit:
                 accepted, ret = False, None
             with open(path, newline='') as f:
@@ -1165,16 +1178,18 @@ def write_model(m, writer, req, out, ctx, case, part):
                      dict(part=part, item='file'), case)
         else:
             text = write_cti(**kw)
-            try:
-                with _quiet():
-                    convert(text=text, outName=os.path.join(tmp, 'thermo.xml'))
-            except SystemExit:
-                accepted = False
+            if complete:
+                try:
+                    with _quiet():
+                        convert(text=text, outName=os.path.join(tmp, 'thermo.xml'))
+                except SystemExit:
+                    accepted = False
         ctx.trace()
-        ctx.true('the bundled ctml_writer converts the CTI file', accepted, dict(part=part, item='ctml_writer'), case,
-                 'SystemExit', 'converted')
-        if accepted:
-            ctx.tag('cti:ctml_writer accepted')
+        if complete:
+            ctx.true('the bundled ctml_writer converts the CTI file', accepted, dict(part=part, item='ctml_writer'), case,
+                     'SystemExit', 'converted')
+            if accepted:
+                ctx.tag('cti:ctml_writer accepted')
         return text
     finally:
         shutil.rmtree(tmp, ignore_errors=True)
@@ -1222,8 +1237,7 @@ def _thermo_eval(case, ctx):
         ctx.true(C_WF, got is not None and not probs, dict(part=part, item='file'), case, probs, [])
         if got is None:
             return
-        supplied = {'phases', 'species', 'reactions'} | ({'interactions'} if m.interactions else set())
-        compare(ex, got, req, ctx, case, part, supplied)
+        compare(ex, got, req, ctx, case, part, _supplied(m))
     finally:
         _reset_defaults()
 
@@ -1325,8 +1339,7 @@ def _hist_eval(case, ctx):
             ok &= ctx.true(C_WF, got is not None and not probs, dict(part=part, item='file'), case, probs, [])
             if got is None:
                 return False
-            supplied = {'phases', 'species', 'reactions'} | ({'interactions'} if m.interactions else set())
-            ok &= compare(ex, got, req, ctx, case, part, supplied)
+            ok &= compare(ex, got, req, ctx, case, part, _supplied(m))
             if op in last_text:
                 ctx.tag('hist:same writer twice')
                 ok &= ctx.true(C_H_SAME, _strip_stamp(text) == last_text[op], dict(part=part, item='file'), case,
